@@ -215,12 +215,39 @@ def check_family(res, r, k, lines, pend):
                 B2 = (fs(Rg, Zg, dx=1, grid=False) ** 2 + fs(Rg, Zg, dy=1, grid=False) ** 2) / Rg ** 2
                 rad = 3.0 * math.hypot(dR, dZ)
                 near = False
+                nodes = []
                 for i in range(2, nx - 2):
                     for j in range(2, ny - 2):
                         if math.hypot(R1[i] - t[0], Z1[j] - t[1]) < rad and all(
                                 B2[i, j] < B2[i + a, j + b] for a in (-1, 0, 1) for b in (-1, 0, 1) if (a, b) != (0, 0)):
                             near = True
-                if near:
+                            nodes.append((i, j))
+                # classification only (not a judgement): does the Newton iteration of the code, started from each of these nodes, leave the
+                # search radius (3 cell diagonals from the node) before it converges?
+                leaves = bool(nodes)
+                for (i, j) in nodes:
+                    Rn, Zn, left = float(R1[i]), float(Z1[j]), False
+                    for _it in range(50):
+                        Br, Bz = -float(fs(Rn, Zn, dy=1, grid=False)) / Rn, float(fs(Rn, Zn, dx=1, grid=False)) / Rn
+                        if Br ** 2 + Bz ** 2 < 1e-6:
+                            break
+                        Jm = np.array([[-Br / Rn - float(fs(Rn, Zn, dx=1, dy=1)[0][0]) / Rn, -float(fs(Rn, Zn, dy=2)[0][0]) / Rn],
+                                       [-Bz / Rn + float(fs(Rn, Zn, dx=2)[0][0]) / Rn, float(fs(Rn, Zn, dx=1, dy=1)[0][0]) / Rn]])
+                        try:
+                            d_ = np.linalg.solve(Jm, [Br, Bz])
+                        except np.linalg.LinAlgError:
+                            left = True
+                            break
+                        Rn, Zn = Rn - d_[0], Zn - d_[1]
+                        if (Rn - R1[i]) ** 2 + (Zn - Z1[j]) ** 2 > 9 * (dR ** 2 + dZ ** 2):
+                            left = True
+                            break
+                    leaves = leaves and left
+                if near and leaves:
+                    bad.append(("missed-x:newton-from-the-node-minimum-leaves-the-search-radius",
+                                "X-point at (%.4f, %.4f) not returned: the only strict node minima of Bp^2 within three cell diagonals are %s, and the Newton "
+                                "iteration started there leaves the search radius" % (t[0], t[1], [(round(float(R1[i]), 4), round(float(Z1[j]), 4)) for i, j in nodes])))
+                elif near:
                     bad.append(("missed-x", "X-point at (%.4f, %.4f) (psi monotonic from the axis) not returned" % (t[0], t[1])))
                 else:
                     bad.append(("missed-x:no-node-minimum-of-Bp2-within-search-radius",
@@ -305,6 +332,50 @@ def tokamak_level(res, tier):
                     okk = False
                     res.violation("legs:" + geo, "strike point of %s (R=%.4f) is not at smaller major radius than that of %s (R=%.4f)" % (a, pa.R, b, pb.R), payload)
         if okk:
+            res.traces += 1
+
+
+def null_count_with_psi_sol(res, tier):
+    """the SOL edge given as an unnormalised psi value (documented to override psinorm_sol): single / double null is decided by the X-points within
+    THAT edge"""
+    from hypnotoad import tokamak
+
+    ex = os.path.join(vlib.REPO, "examples", "tokamak")
+    if ex not in sys.path:
+        sys.path.insert(0, ex)
+    import tokamak_example
+
+    wall = [(1.25, -0.45), (1.25, 0.45), (1.75, 0.45), (1.75, -0.45)]
+    base = dict(nx_core=2, nx_sol=2, ny_inner_divertor=3, ny_outer_divertor=4, ny_sol=8, psinorm_core=0.9)
+    r1, z1, p2, p1 = tokamak_example.create_tokamak(geometry="udn2")
+    try:
+        with warnings.catch_warnings(), contextlib.redirect_stdout(io.StringIO()):
+            warnings.simplefilter("ignore")
+            e0 = tokamak.TokamakEquilibrium(r1, z1, p2.copy(), p1.copy(), [], settings=dict(base, psinorm_sol=1.05), wall=wall)
+    except Exception as ex2:
+        res.extra.setdefault("psi_sol_refused", []).append(str(ex2)[:120])
+        return
+    psi_of = lambda pn: float(e0.psi_axis + pn * (e0.psi_bdry - e0.psi_axis))  # noqa: E731
+    # the second X-point of this equilibrium sits at psinorm ~ 1.16
+    for pn_edge, pn_opt, want in ((1.4, 1.1, "double"), (1.1, 1.3, "single")):
+        o = dict(base, psinorm_sol=pn_opt, psinorm_sol_inner=pn_opt, psi_sol=psi_of(pn_edge), psi_sol_inner=psi_of(pn_edge))
+        if want == "double":
+            o.update(nx_inter_sep=1)
+        res.case(key=("null-count-psi_sol", pn_edge, pn_opt), nontrivial=True, sample={"op": "null count with psi_sol", "psi_sol_as_psinorm": pn_edge, "psinorm_sol": pn_opt, "expected": want})
+        payload = {"geometry": "udn2", "psi_sol_as_psinorm": pn_edge, "psinorm_sol": pn_opt}
+        try:
+            with warnings.catch_warnings(), contextlib.redirect_stdout(io.StringIO()):
+                warnings.simplefilter("ignore")
+                eq = tokamak.TokamakEquilibrium(r1, z1, p2.copy(), p1.copy(), [], settings=o, wall=wall)
+        except Exception as ex2:
+            res.violation("null-count-psi_sol-raises", "udn2 with psi_sol at psinorm %.2f (psinorm_sol option %.2f): construction fails: %s: %s" % (
+                pn_edge, pn_opt, type(ex2).__name__, str(ex2)[:120]), payload)
+            continue
+        got = "single" if len(eq.x_points) == 1 else "double"
+        if got != want:
+            res.violation("null-count-psi_sol", "udn2 with psi_sol at psinorm %.2f and the psinorm_sol option left at %.2f is treated as %s null, expected %s (the second "
+                          "X-point is at psinorm ~1.16)" % (pn_edge, pn_opt, got, want), payload)
+        else:
             res.traces += 1
 
 
@@ -418,6 +489,7 @@ def run(res, tier):
     tokamak_level(res, tier)
     legs_level(res, tier)
     close_pairs(res, tier)
+    null_count_with_psi_sol(res, tier)
     lines.append("c19n 0"); pend.append(("n", "refuse", None))
     lines.append("c19n 1"); pend.append(("n", "single", None))
     lines.append("c19n 2"); pend.append(("n", "double", None))
